@@ -42,6 +42,7 @@ func runC03(o opts) error {
 		for i := 0; i < nq/5; i++ {
 			scns = append(scns, c03.F3AfterTimeout(rng))
 		}
+		scns = append(scns, c03.QueryCaps(rng)...)
 	}
 	sink, err := trace.NewSink(o.out, o.shards)
 	if err != nil {
